@@ -88,11 +88,18 @@ type Countersigned struct {
 // attach places the countersignature into the parent's unprotected bucket
 // (single value, or appended to a list when one is already there) and drops
 // the parent's retained raw unprotected bytes so that it is emitted.
-func (c *Countersigned) attach(h *cose.Headers, asList bool) {
+//
+// fromDecoder: the parent came out of a decoder and therefore retains raw
+// bytes the application has to clear; a parent built in memory has none, and
+// an application has no reason to touch the field - whatever the library may
+// have put there on an earlier MarshalCBOR stays.
+func (c *Countersigned) attach(h *cose.Headers, asList, fromDecoder bool) {
 	if h.Unprotected == nil {
 		h.Unprotected = cose.UnprotectedHeader{}
 	}
-	h.RawUnprotected = nil
+	if fromDecoder {
+		h.RawUnprotected = nil
+	}
 	if c.Full == nil {
 		h.Unprotected[c.Label] = c.Abbrev
 		return
